@@ -497,6 +497,38 @@ func runCase(c tcase) (fails [][2]string, okUpdates int) {
 				}
 			}
 		}
+		// an Update request that leaves the resource out altogether (legal on the wire), plain and - where the request
+		// has such a flag - as a relative / delta update: answered, not a panic; rejected means nothing changed,
+		// accepted means the response is what Get returns next
+		for _, flag := range []string{"", "delta", "relative"} {
+			req := newOf(t.upd.desc.Input())
+			setStr(req, "name", devName)
+			if flag != "" {
+				fd := req.Descriptor().Fields().ByName(protoreflect.Name(flag))
+				if fd == nil || fd.Kind() != protoreflect.BoolKind {
+					continue
+				}
+				req.Set(fd, protoreflect.ValueOfBool(true))
+			}
+			resp := newOf(t.res).Interface()
+			uerr := conns[t.upd.svc.Desc.ServiceName].Invoke(ctx, t.upd.full(), req.Interface(), resp)
+			verifrt.WaitIdle()
+			after, gerr := get("")
+			switch {
+			case gerr != nil:
+				fail("get-error", gerr.Error())
+			case uerr == nil:
+				if !proto.Equal(resp, after) {
+					fail("update-response-not-get", fmt.Sprintf("%s (no resource in the request, %s) returned %v but the next Get returns %v", t.upd.full(), flag, resp, after))
+				}
+				cur = after
+			case !proto.Equal(after, cur):
+				fail("rejected-update-changed-value", fmt.Sprintf("%s (no resource in the request) returned %v but Get changed from %v to %v", t.upd.full(), uerr, cur, after))
+			}
+			for _, st := range streams {
+				st.got, st.names = nil, nil
+			}
+		}
 		// Get with a read mask is the projection of the full Get
 		if c.ReadMsk != "" {
 			m, err := get(c.ReadMsk)
